@@ -6,6 +6,8 @@
 
 pub mod app;
 pub mod exec;
+pub mod peer;
+pub mod wire;
 
 use std::collections::{BTreeMap, VecDeque};
 use std::sync::{Arc, Mutex, MutexGuard};
